@@ -12,7 +12,7 @@ EXPLANATION = ("Preset tables IpBindConfig::into_ip / into_dual_stack_config == 
                "setter delegation for both builders: max_idle_timeout converts with IdleTimeout::try_from and fails with InvalidIdleTimeout before "
                "touching the transport config, keep_alive_interval / allow_migration reach quinn's TransportConfig / ServerConfig::migration in "
                "build(); both build_default_tls_config restrict to [TLS13] and set ALPN [WEBTRANSPORT_ALPN]; reload_config rebinds iff asked and "
-               "always installs the new server config. Builder typestate witnesses are in the thorough tier.")
+               "always installs the new server config. Builder typestate witnesses are in the thorough tier. C20-R6: every with_* step of both builders passes the given bind address / socket, TLS config, transport config and DNS resolver on unchanged (defaults only where the caller gave nothing), and build / build_with_quic_config install exactly the stored values.")
 NOT_DECIDED = ["kernel socket behaviour", "negotiated transport parameters and timers at run time"]
 TRUSTED = ["rustc MIR / const evaluation", "socket2 / quinn / rustls API semantics"]
 
@@ -42,7 +42,8 @@ def run(ctx):
         for p in ps:
             at, leaf = path_sig(p)
             ev = event_strs(p)
-            fam = [re.search(r"\) is (V4|V6)$", a).group(1) for a in at if re.search(r"^<SocketAddr as From<SocketAddrV[46]>>::from\(.*\) is (V4|V6)$", a)]
+            # the address family the socket is created for is the variant of the SocketAddr that is bound (whatever expression builds it)
+            fam = [re.search(r" is (V4|V6)$", a).group(1) for a in at if re.search(r"SocketAddr.* is (V4|V6)$", a) and not a.startswith("IpBindConfig")]
             news = [e for e in ev if e.startswith("Socket::new(")]
             if any(a == "self is Socket" for a in at):
                 ctx.check("C20-R1", "pre-bound socket returned as is", leaf == "return Result::Ok((self as Socket).0)" and not news, "bind_socket does not return a pre-bound socket unchanged: %s" % leaf, where(f))
@@ -61,8 +62,15 @@ def run(ctx):
                 ctx.check("C20-R1", "V4 address: no IPV6_V6ONLY call", not v6, "set_only_v6 is called for an IPv4 bind address", where(f), key="set_only_v6|V4")
             if leaf.startswith("return Result::Ok(<impl From<Socket> for UdpSocket>::from("):
                 b = [e for e in ev if e.startswith("Socket::bind(")]
-                ctx.check("C20-R1", "bound to the requested address", len(b) == 1 and re.search(r",<SocketAddr as From<SocketAddrV[46]>>::from\(\(self as AddressV[46]\)\.0\)\)$", b[0].replace("<SockAddr as From<SocketAddr>>::from(", "").replace("))", ")") if False else b[0]) is not None or (len(b) == 1 and "(self as AddressV" in b[0]),
-                          "bind_socket does not bind to the configured address: %s" % b, where(f), key="bound to the requested address")
+                be = [e for e in p.events if e[0] == "call" and e[1].endswith("Socket::bind") and len(e[2]) == 2]
+                addr = canon(be[0][2][1]) if len(be) == 1 else None
+                # the whole configured SocketAddrV4 / SocketAddrV6 (ip, port, and for v6 flowinfo and scope id) through std's lossless conversion;
+                # an address re-assembled from ip() and port() drops the zone of a link-local address
+                okb = addr is not None and re.fullmatch(r"(<SockAddr as From<SocketAddr>>::from\()?(<SocketAddr as From<SocketAddrV([46])>>::from|SocketAddr::V([46]))\(\(self as AddressV([46])\)\.0\)\)?", addr) is not None
+                # (an IPv4 socket address has nothing but ip and port: re-assembling it from both is lossless)
+                okb = okb or (addr is not None and re.fullmatch(r"(<SockAddr as From<SocketAddr>>::from\()?SocketAddr::new\(IpAddr::V4\(SocketAddrV4::ip\(\(self as AddressV4\)\.0\)\),SocketAddrV4::port\(\(self as AddressV4\)\.0\)\)\)?", addr) is not None)
+                ctx.check("C20-R1", "bound to the requested address", okb,
+                          "bind_socket binds %s, expected the configured address as a whole (SocketAddr::from((self as AddressV4|V6).0)): rebuilding it from parts loses flowinfo / scope id" % addr, where(f), key="bound to the requested address")
         ctx.floor("C20-R1", "bind_socket socket-creating paths", n, 4)
     for side, args in (("ServerConfigBuilder", "self,IpBindConfig::InAddrAnyDual,listening_port"), ("ClientConfigBuilder", "self,IpBindConfig::InAddrAnyDual")):
         f = A.fn(C + side + "::with_bind_default")
@@ -151,6 +159,47 @@ def run(ctx):
     with depth_limit(8):
         ev = [e for p in nonpanic(walk(f)) for e in event_strs(p)]
     ctx.check("C20-R4", "client installs its quic config as default", any(re.match(r"^Endpoint::set_default_client_config\(.*,client_config\.quic_config\)$", e) for e in ev), "Endpoint::client does not install client_config.quic_config", where(f))
+
+    ctx.rule("C20-R6", "what the builder is given is what is built: bind address / socket, TLS config, transport config and resolver flow unchanged through with_* into the built config")
+    DEF_E = "<EndpointConfig as Default>::default()"
+    DEF_T = "<TransportConfig as Default>::default()"
+    NATIVE = "build_default_tls_config(Arc::new(build_native_cert_store()),Option::None)"
+    DNS = "(<Arc<T> as Default>::default() as std::sync::Arc<dyn wtransport::config::DnsResolver + std::marker::Send + std::marker::Sync>)"
+    flow = {
+        "ServerConfigBuilder::with_bind_address": "return ServerConfigBuilder(WantsIdentity(<BindAddressConfig as From<SocketAddr>>::from(address)))",
+        "ServerConfigBuilder::with_bind_socket": "return ServerConfigBuilder(WantsIdentity(BindAddressConfig::Socket(socket)))",
+        "ServerConfigBuilder::with_identity": "return ServerConfigBuilder::with(self,build_default_tls_config(identity),%s,%s)" % (DEF_E, DEF_T),
+        "ServerConfigBuilder::with_custom_tls": "return ServerConfigBuilder::with(self,tls_config,%s,%s)" % (DEF_E, DEF_T),
+        "ServerConfigBuilder::with_custom_transport": "return ServerConfigBuilder::with(self,build_default_tls_config(identity),%s,quic_transport_config)" % DEF_E,
+        "ServerConfigBuilder::with_custom_tls_and_transport": "return ServerConfigBuilder::with(self,tls_config,%s,quic_transport_config)" % DEF_E,
+        "ServerConfigBuilder::with": "return ServerConfigBuilder(WantsTransportConfigServer(self.0.bind_address_config,tls_config,endpoint_config,transport_config,1))",
+        "ServerConfigBuilder::build_with_quic_config": "return ServerConfig(self.0.bind_address_config,%s,quic_config)" % DEF_E,
+        "ClientConfigBuilder::with_bind_address": "return ClientConfigBuilder(WantsRootStore(<BindAddressConfig as From<SocketAddr>>::from(address)))",
+        "ClientConfigBuilder::with_bind_socket": "return ClientConfigBuilder(WantsRootStore(BindAddressConfig::Socket(socket)))",
+        "ClientConfigBuilder::with_native_certs": "return ClientConfigBuilder::with(self,%s,%s,%s)" % (NATIVE, DEF_E, DEF_T),
+        "ClientConfigBuilder::with_custom_tls": "return ClientConfigBuilder::with(self,tls_config,%s,%s)" % (DEF_E, DEF_T),
+        "ClientConfigBuilder::with_custom_transport": "return ClientConfigBuilder::with(self,%s,%s,quic_transport_config)" % (NATIVE, DEF_E),
+        "ClientConfigBuilder::with_custom_tls_and_transport": "return ClientConfigBuilder::with(self,tls_config,%s,quic_transport_config)" % DEF_E,
+        "ClientConfigBuilder::with": "return ClientConfigBuilder(WantsTransportConfigClient(self.0.bind_address_config,tls_config,endpoint_config,transport_config,%s))" % DNS,
+        "ClientConfigBuilder::build_with_quic_config": "return ClientConfig(self.0.bind_address_config,%s,quic_config,%s)" % (DEF_E, DNS),
+    }
+    for nm, want in flow.items():
+        f = A.fn(C + nm)
+        with depth_limit(10):
+            sg = [path_sig(p)[1] for p in nonpanic(walk(f))]
+        ctx.check("C20-R6", nm, sg == [want], "%s does not pass its arguments on unchanged: %s, expected %s" % (nm, sg, want), where(f), key="builder flow|%s" % nm)
+    f = A.fn(C + "ClientConfigBuilder::dns_resolver")
+    ps = nonpanic(walk(f))
+    ev = [e for p in ps for e in event_strs(p) if e.startswith("store ")]
+    ctx.check("C20-R6", "ClientConfigBuilder::dns_resolver stores the resolver", len(ps) == 1 and path_sig(ps[0])[1] == "return self" and len(ev) == 1 and ev[0].startswith("store self.0.dns_resolver := (Arc::new(dns_resolver) as "),
+              "ClientConfigBuilder::dns_resolver does not store the given resolver: %s" % ev, where(f))
+    f = A.fn(C + "ClientConfig::set_dns_resolver")
+    ev = [e for p in nonpanic(walk(f)) for e in event_strs(p) if e.startswith("store ")]
+    ctx.check("C20-R6", "ClientConfig::set_dns_resolver stores the resolver", len(ev) == 1 and ev[0].startswith("store self.dns_resolver := (Arc::new(dns_resolver) as "), "ClientConfig::set_dns_resolver does not store the given resolver: %s" % ev, where(f))
+    f = A.fn(C + "ClientConfigBuilder::build")
+    with depth_limit(10):
+        lf = [path_sig(p)[1] for p in nonpanic(walk(f))]
+    ctx.check("C20-R6", "ClientConfigBuilder::build keeps the resolver", len(lf) == 1 and re.search(r",\(self\.0\.dns_resolver as [^()]*\)\)$", lf[0]) is not None, "ClientConfigBuilder::build does not install self.0.dns_resolver: %s" % [l[-120:] for l in lf], where(f))
 
     ctx.rule("C20-R5", "builder typestate: compile-fail witnesses (build() before identity / trust policy; binding twice)")
     witness.run(ctx, "C20-R5", {"C20"})
